@@ -5,6 +5,8 @@ import (
 	"go/constant"
 	"go/token"
 	"go/types"
+	"strconv"
+	"strings"
 
 	"golang.org/x/tools/go/ssa"
 )
@@ -67,7 +69,9 @@ func (v symVal) String() string {
 }
 
 type symExec struct {
-	env     map[ssa.Value]symVal
+	// fieldLoad answers a load of a field reached from a named opaque value (`r.Method` of parameter r)
+	fieldLoad func(path string) (symVal, bool)
+	env       map[ssa.Value]symVal
 	arrays  map[*ssa.Alloc]*[]svCell // local arrays
 	cells   map[*ssa.Alloc]*svCell   // local scalars
 	oracle  func(callee string, args []symVal) (symVal, bool)
@@ -208,7 +212,18 @@ func (se *symExec) step(in ssa.Instruction) bool {
 	case *ssa.UnOp:
 		switch x.Op {
 		case token.MUL:
+			// a package-level configuration slot (`Config.Parsers.Query`): a symbol named after its path
+			if name := globalFieldPath(x.X); name != "" {
+				se.env[x] = symVal{kind: svStr, name: name}
+				return true
+			}
 			p := se.val(x.X)
+			if p.kind == svOpaque && p.name != "" && se.fieldLoad != nil {
+				if v, ok := se.fieldLoad(p.name); ok {
+					se.env[x] = v
+					return true
+				}
+			}
 			if p.kind != svPtr {
 				se.env[x] = symVal{}
 				return true
@@ -274,6 +289,22 @@ func (se *symExec) step(in ssa.Instruction) bool {
 			return true
 		}
 		base := se.val(x.X)
+		if base.kind == svStr {
+			// a concrete representative string (quoted): sliced for real
+			str, err := strconv.Unquote(base.name)
+			if err != nil {
+				return se.fail("slice of a symbolic string")
+			}
+			if hi < 0 {
+				hi = len(str)
+			}
+			if lo < 0 || lo > hi || hi > len(str) {
+				se.panics = "slice bounds out of range"
+				return false
+			}
+			se.env[x] = symVal{kind: svStr, name: strconv.Quote(str[lo:hi])}
+			return true
+		}
 		if base.kind == svSlice {
 			if hi < 0 {
 				hi = base.n
@@ -338,6 +369,10 @@ func (se *symExec) step(in ssa.Instruction) bool {
 				return se.fail("boolean operator %s", x.Op)
 			}
 			return true
+		case a.kind == svStr && c.kind == svStr && (x.Op == token.EQL || x.Op == token.NEQ):
+			// symbols are equal exactly when they are the same symbol (representatives are distinct strings)
+			se.env[x] = symVal{kind: svBool, b: (a.name == c.name) == (x.Op == token.EQL)}
+			return true
 		case a.kind == svPtr && c.kind == svPtr && (x.Op == token.EQL || x.Op == token.NEQ):
 			se.env[x] = symVal{kind: svBool, b: (a.cell == c.cell) == (x.Op == token.EQL)}
 			return true
@@ -355,7 +390,17 @@ func (se *symExec) step(in ssa.Instruction) bool {
 		}
 		se.env[x] = symVal{}
 		return true
-	case *ssa.Field, *ssa.FieldAddr, *ssa.MakeInterface, *ssa.ChangeType, *ssa.Convert, *ssa.TypeAssert, *ssa.MakeClosure:
+	case *ssa.FieldAddr:
+		base := se.val(x.X)
+		if base.kind == svOpaque && base.name != "" {
+			if _, f := fieldVar(x); f != nil {
+				se.env[x] = symVal{kind: svOpaque, name: base.name + "." + f.Name()}
+				return true
+			}
+		}
+		se.env[x] = symVal{}
+		return true
+	case *ssa.Field, *ssa.MakeInterface, *ssa.ChangeType, *ssa.Convert, *ssa.TypeAssert, *ssa.MakeClosure:
 		if v, ok := in.(ssa.Value); ok {
 			if ct, ok := in.(*ssa.ChangeType); ok {
 				se.env[v] = se.val(ct.X)
@@ -407,6 +452,13 @@ func (se *symExec) step(in ssa.Instruction) bool {
 		for _, a := range x.Call.Args {
 			args = append(args, se.val(a))
 		}
+		// a call through a configuration slot: its result is a symbol naming the slot
+		if ci.dynamic {
+			if f := se.val(x.Call.Value); f.kind == svStr && strings.HasPrefix(f.name, "@") {
+				se.env[x] = symVal{kind: svStr, name: "call " + f.name}
+				return true
+			}
+		}
 		// a helper of the module is interpreted in turn
 		if g := ci.static; g != nil && g.Blocks != nil && inModule(funcPkgPath(g)) && se.depth < 4 && len(g.FreeVars) == 0 {
 			sub := &symExec{env: se.env, arrays: se.arrays, cells: se.cells, oracle: se.oracle, depth: se.depth + 1}
@@ -433,6 +485,29 @@ func (se *symExec) step(in ssa.Instruction) bool {
 		return se.fail("call of %s is outside the interpreter's vocabulary", ci.calleeName())
 	}
 	return se.fail("instruction %T outside the interpreter's vocabulary", in)
+}
+
+// globalFieldPath: addr is a chain of field selections on a package-level variable; returns "@Var.f.g".
+func globalFieldPath(addr ssa.Value) string {
+	var parts []string
+	for {
+		switch a := addr.(type) {
+		case *ssa.FieldAddr:
+			_, f := fieldVar(a)
+			if f == nil {
+				return ""
+			}
+			parts = append([]string{f.Name()}, parts...)
+			addr = a.X
+			continue
+		case *ssa.Global:
+			if len(parts) == 0 {
+				return ""
+			}
+			return "@" + a.Name() + "." + strings.Join(parts, ".")
+		}
+		return ""
+	}
 }
 
 func zeroSym(t types.Type) symVal {
